@@ -43,6 +43,8 @@ CODECS = [
     ("ascii", "ascii", "ascii"), ("cp437", "ascii", "cp437"),
     # 7-bit stateful codecs: the bytes are pure ASCII although the text is not
     ("iso-2022-jp", "jp2", "iso2022_jp"), ("utf-7", "utf7", "utf-7"), ("hz", "zh", "hz"),
+    # names Python normalises although no codec is registered under them (the forms Emacs writes)
+    ("utf-8-unix", "utf8", "utf-8"), ("latin-1-dos", "latin", "iso-8859-1"), ("iso-latin-1-unix", "latin", "iso-8859-1"),
 ]
 
 COOKIE_FORMS = [
